@@ -20,6 +20,7 @@ func init() {
 			"R10c a per-record failure does not disturb the reader: on the ParseNode-failed branch of Ingester.Read the only format-reader method reachable is FmtErr, and every FmtErr implementation in the repository is store-free (no write through its receiver or to globals, transitively). " +
 			"R10d closed allow-list of process-wide mutable state on the run set: no store rooted at a package-level variable; globals read have init-only writers; objects in globals are used only via sync.Pool / sync/atomic / LoadingCache.Get. " +
 			"R10e reader-owned buffers: in the flat-file readers the number of buffered lines converted into a node equals the number popped (structurally equal pure expressions), so no line of a previous record is re-read and none is skipped. " +
+			"R10h pooled JavaScript VMs are wiped on every path (= C20 R20a) and R10i no run-set store reaches a schema-owned object (= C14 R14a): neither a failed record's script arguments nor a value memoised into the shared declarations can reach a later record. " +
 			"R10f pooled nodes are blank (= C12 R12b–d): a recycled node carries nothing from the record or transform that used it before. R10g the bytes returned for a record are nil or a fresh json.Marshal result, never a slice of a reused buffer (earlier results must not change when later records are read).",
 		NotDecided: "the algebraic law itself (concatenation/permutation of runs); schemas addressing ancestors (outside the property's quantifier); state kept inside third-party decoders.",
 		Trusted:    commonTrusted,
@@ -92,6 +93,15 @@ func runC10(c *core.Ctx) {
 		c01FreshBytes(c, er, "R10g")
 	}
 	c.Floor("R10g", 3, "returns of the built-in Ingester.Read")
+
+	// ---------------- R10h pooled JavaScript VMs carry nothing from an earlier (possibly failed) record (= C20 R20a)
+	c20VMPool(c, "R10h")
+	c.Floor("R10h", 7, "VM pool discipline")
+	// ---------------- R10i nothing is memoised into the shared schema while records are read (= C14 R14a)
+	if shared := c14SharedTypes(c); shared != nil {
+		n := c14SharedStores(c, repoFuncsIn(e.run), shared, "R10i", "R10d")
+		c.OK("R10i", "run-set store inventory against schema-owned types", 0, fmt.Sprintf("%d stores inspected", n))
+	}
 }
 
 // c10FreshCtx (R10a): the evaluation context and its result cache live for exactly one record. Shared with
